@@ -97,8 +97,8 @@ CHECKS = {
         "conditions of the SQL theorems). Props/C06Value.lean (with Spec/LitSpell.lean: the well-formed spellings of the ABNF as functions of the MEANING): for EVERY meaning the spelling has "
         "exactly that value in the py_val model - int_value (any width / leading zeros / sign), date_value, date_no_value, time_value, datetime_value (optional seconds, fraction, naive / Z / "
         "offset), duration_value (every sign / part combination, 365.25-day year and 30.44-day month in microseconds), guid_value, bool_value, string_value (quotes un-doubled exactly), "
-        "ident_namespaces - and, followed by anything that may follow a literal, is ONE token of exactly that kind carrying that text: int_kind date_kind time_kind datetime_kind_anycase "
-        "duration_kind guid_kind string_kind ident_kind (keyword-prefixed identifiers included). Spec/LitSpell is tied to reality on every run: random meanings are spelled by Lean, compared "
+        "ident_namespaces - and, followed by anything that may follow a literal, is ONE token of exactly that kind carrying that text: int_kind decimal_kind bool_kind null_kind date_kind time_kind "
+        "datetime_kind_anycase duration_kind guid_kind geography_kind string_kind ident_kind (keyword-prefixed identifiers included): every literal kind the property lists. Spec/LitSpell is tied to reality on every run: random meanings are spelled by Lean, compared "
         "with the check's own formatting, and lexed / parsed / evaluated / judged on the real code. The property itself is judged on the real code on every run from what the generator knows by construction (kind, .val, py_val), incl. boundary years 0001 / 0999.",
    note="Trusted: Lean kernel, standard axioms, Spec/LitSpell.lean (validated each run), harness; the meaning of each spelling is known to the generator by construction. Modelled, not verified: CPython re, "
         "datetime.fromisoformat, dateutil.isoparse, float(); Duration.py_val in IEEE doubles is modelled exactly (valid for small components). fix: a34c246 (keyword prefixes), b8a3ae1 (years below 1000). Known finding: years outside 0001-9999 (no Python value).",
